@@ -1,6 +1,6 @@
 (* The parsed program [prog_of t] executes exactly what the table interpreter computes (C08_sem, C08_init). *)
 From Coq Require Import String Ascii List Bool Arith Lia.
-From KV Require Import Lib.TableDef Model.TTable Model.PyShape Spec.TableInterp Gen.PyTmpl Model.PySM Proofs.PySMGen.
+From KV Require Import Lib.TableDef Model.TTable Model.PyShape Spec.TableInterp Gen.PyTmpl Model.PySM Proofs.TTableProofs Proofs.PySMGen.
 Import ListNotations.
 Open Scope string_scope.
 
@@ -115,18 +115,7 @@ Proof.
     destruct (exec_stmts gv e call (map row_block (trans_of t s e)) cur n) as [[[o tr] c] m]. reflexivity.
 Qed.
 
-Lemma NoDup_filter : forall {A} (f : A -> bool) l, NoDup l -> NoDup (filter f l).
-Proof.
-  induction l as [|x l IH]; intro H; [constructor|]. inversion H; subst. cbn [filter].
-  destruct (f x); auto. constructor; auto. intro Hin. apply filter_In in Hin as [Hin _]. contradiction.
-Qed.
 
-Lemma NoDup_dedup : forall l, NoDup (dedup l).
-Proof.
-  induction l as [|x l IH]; [constructor|]. cbn [dedup]. constructor.
-  - intro H. apply In_filter_neq in H as [_ H]. congruence.
-  - apply NoDup_filter. exact IH.
-Qed.
 
 Lemma rows_for_nil_event : forall t s e, forallb row_ok t = true -> ~ In e (events_of t s) -> rows_for t s e = [].
 Proof.
